@@ -551,6 +551,87 @@ func (s *Sim) interleaveDpUnbinds() {
 	}
 }
 
+// interleaveFilterReload is the fourth seeded overlap (C06): a filter is suspended right after it asked the IPAM for a
+// node's subnet (IPAM call NodeSubnet, which feeds the plugin's node-subnet cache); a configuration reload with changed
+// node subnets runs meanwhile (it resets that cache); the filter resumes. Afterwards fresh pods are filtered: what they
+// are offered must match the configuration now in force.
+func (s *Sim) interleaveFilterReload() {
+	do := func(o Op) { s.exec(o, nil, nil) }
+	deliverAll := func() {
+		for _, r := range []string{"sts", "dp", "pools", "pods", "fips"} {
+			for s.W.Pending(r) > 0 && s.ownAlarms() == 0 {
+				do(Op{Kind: "deliver", Res: r})
+			}
+		}
+	}
+	// the cache is filled per node: start from an empty one (a reload with the same content resets it)
+	do(Op{Kind: "restart"})
+	var wi = -1
+	for i, w := range s.WLs {
+		if w.Exists && w.effPolicy() == 0 && w.Ranges == "" && w.Pool == "" {
+			wi = i
+			break
+		}
+	}
+	if wi < 0 {
+		return
+	}
+	do(Op{Kind: "create", WL: wi})
+	deliverAll()
+	ps := s.unboundPods()
+	if len(ps) == 0 || s.ownAlarms() > 0 {
+		return
+	}
+	p := ps[len(ps)-1]
+	s.Counts["interleave_template_filter_vs_reload"]++
+	ran := false
+	s.pauseIPAM = func(method string, after bool) bool { return after && method == "NodeSubnet" }
+	s.runPaused(Op{Kind: "filter", Pod: string(p.UID)}, nil, func() (Op, bool) {
+		if ran {
+			return Op{}, false
+		}
+		ran = true
+		return Op{Kind: "reload", Topo: splitNodeSubnets(s.Topo)}, true
+	})
+	// fresh pods of every default-policy workload are filtered against the configuration now in force
+	for round := 0; round < 2 && s.ownAlarms() == 0; round++ {
+		for i, w := range s.WLs {
+			if !w.Exists || w.effPolicy() != 0 || w.Ranges != "" || w.Pool != "" {
+				continue
+			}
+			do(Op{Kind: "create", WL: i})
+		}
+		deliverAll()
+		for _, q := range s.unboundPods() {
+			if s.ownAlarms() > 0 {
+				break
+			}
+			do(Op{Kind: "filter", Pod: string(q.UID)})
+		}
+	}
+}
+
+// splitNodeSubnets returns the same pools with every node subnet of at most 30 bits replaced by its two halves: every
+// node keeps being served by the same pools, but the subnet the IPAM reports for a node changes.
+func splitNodeSubnets(t *model.Topo) *model.Topo {
+	nt := &model.Topo{Nodes: t.Nodes}
+	for _, p := range t.Pools {
+		q := p
+		q.Ranges = append([][2]uint32(nil), p.Ranges...)
+		q.NodeSubnets = nil
+		for _, n := range p.NodeSubnets {
+			if n.Bits > 30 {
+				q.NodeSubnets = append(q.NodeSubnets, n)
+				continue
+			}
+			half := uint32(1) << uint(32-n.Bits-1)
+			q.NodeSubnets = append(q.NodeSubnets, model.Subnet{Base: n.Base, Bits: n.Bits + 1}, model.Subnet{Base: n.Base + half, Bits: n.Bits + 1})
+		}
+		nt.Pools = append(nt.Pools, q)
+	}
+	return nt
+}
+
 // afterCrash restarts the plugin after an injected crash and evaluates the crash monitors of C05.
 func (s *Sim) afterCrash() {
 	s.faultMode = world.None
